@@ -381,6 +381,17 @@ impl Task {
             )));
         }
         self.init(ctx)?;
+        // a branch that starts to wait after all its siblings have been decided would never be woken up:
+        // let the parent look at it once
+        if self.state().is_pending() {
+            if let Some(parent) = self.parent() {
+                parent.review(ctx)?;
+            }
+            if !self.state().is_pending() {
+                // resumed or closed by the parent's review, which has already moved it on
+                return Ok(());
+            }
+        }
         self.run(ctx)?;
         self.next(ctx)?;
         Ok(())
